@@ -26,9 +26,7 @@ inline void zpc_block(vh::Case& c, const std::string& desc, const std::vector<i1
     elem_unary<F, false>(R, P, primes, a, {});   // inverse of a random residue (lazily filled static table)
   }
   elem_constants<F>(R, P, primes, {});
-  bool nt = R.total_ops() >= 20 && (R.n[S_RESULT_WRAPPED] > 0 || R.n[K_INVERSE] > 0);
-  if (nt) c.nontrivial(vh::hash_mix(vh::hash_str(desc), salt));
-  c.sample("{\"block\":\"" + vh::jesc(desc) + "\",\"evaluations\":" + std::to_string(R.total_ops()) + "}");
+  finish_block(c, R, desc, salt);
 }
 
 }  // namespace c10
